@@ -110,6 +110,15 @@ def run(ctx) -> Result:
              threads=[[["schedule", 0, 0], ["schedule", 0, 1], ["start"], ["rootgone", 1]], [["pause"], ["unschedule_all"]]], cbs={}),
     ]
     op.campaign(ctx, res, "C06", gone, judge, explore_runs=120 if not ctx.thorough else 1500, do_lockstep=False, tag="gone")
+    # stop()/unschedule() racing the emitter thread's entry into the buffer's get() (real InotifyBuffer + DelayedQueue)
+    races = [
+        dict(nw=1, nh=1, kind="inotify", scripts={"0": []}, threads=[[["schedule", 0, 0], ["start"]], [["stop"]]], cbs={}, settle=0),
+        dict(nw=1, nh=1, kind="inotify", scripts={"0": []}, threads=[[["schedule", 0, 0], ["start"]], [["unschedule", 0]]], cbs={},
+             settle=0),
+        dict(nw=1, nh=1, kind="inotify", scripts={"0": []}, threads=[[["start"], ["schedule", 0, 0], ["unschedule_all"]]], cbs={},
+             settle=0),
+    ]
+    op.campaign(ctx, res, "C06", races, judge, explore_runs=150 if not ctx.thorough else 2000, do_lockstep=False, tag="races")
     # every call order
     maxlen = 3 if not ctx.thorough else 4
     for from_cb in (False, True):
